@@ -44,7 +44,7 @@ def run(ck, rng, tier):
     dist_meta = []
     for _ in range(25 if not thorough else 200):
         n1, n2, c = rng.randint(1, 60 if thorough else 25), rng.randint(1, 12), rng.randint(1, 10)
-        mag = rng.choice((0, 0, 3, -3))
+        mag = rng.choice((0, 0, 3, -3, -6, 6)) if _ >= 3 else (-6, -5, 6)[_]   # units from 1e-6 to 1e6 on every run
         m1 = [[rng.gauss(0, 1) * 10 ** mag for _ in range(c)] for _ in range(n1)]
         m2 = [[rng.gauss(0, 1) * 10 ** mag for _ in range(c)] for _ in range(n2)]
         T = rng.choice((1, 2, 3, 5, 8, 16))
@@ -71,7 +71,7 @@ def run(ck, rng, tier):
             for name, v in o.items():
                 if v != -1:
                     site = name.split("_")[0]
-                    ck.fail("slicing:" + site, "differs_from_sequential_kernel" if "missing" in site else "row_not_processed_once",
+                    ck.fail("slicing:" + site, "differs_from_sequential_kernel" if ("missing" in site or site == "labels") else "row_not_processed_once",
                             "%s: first bad row/col %d with rows=%d threads=%d" % (name, v, R, T),
                             {"rows": R, "threads": T, "kernel": name, "first_bad": v, "replay": "echo 'sweep %d %d' | drv_c13" % (R, T)})
     ck.count("sweep (rows 0..40 x threads 1..24)", nsweep)
